@@ -5,7 +5,12 @@ Shape (C), two families of work units.
 (1) find_peaks: ALL images of a small shape over a small pixel alphabet x footprint x
     border_width x threshold x mask x npeaks (x centroid_func), each executed on the real
     find_peaks and compared with a pixel-by-pixel reference (mcphot/ref/peaks.py) that never
-    calls scipy's maximum_filter.
+    calls scipy's maximum_filter.  The threshold axis holds scalars AND 2-D maps; the 2-D map is
+    itself enumerated: every assignment of a {low, high} (thorough: also a 3-level) alphabet to
+    the pixels of the map on the 2x3 spaces, a structured family (checkerboards, stripes,
+    diagonal, one high / one low pixel at each position) on the 3x3 spaces, each crossed with
+    ALL images -- so the threshold really varies at the pixel scale and a pixel is judged against
+    its OWN threshold while the neighbourhood maximum is over the RAW data.
 
 (2) DAOStarFinder / IRAFStarFinder / StarFinder: a list of small synthetic scenes x kernel
     parameters x min_separation x exclude_border x mask, and for each of them EVERY bound
@@ -35,7 +40,12 @@ PROPERTY = 'C14'
 LEVEL = 'exploration'
 RULE = ('find_peaks: full Cartesian product of every image of the listed shape over the listed pixel alphabet x '
         'footprint x border_width x threshold x mask x npeaks (x centroid) per space (spaces listed under '
-        '"alphabet"); a case is non-trivial when the image is not constant and the reference selects at least one '
+        '"alphabet"); the threshold axis holds scalars and 2-D maps, and an "all:<levels>" entry stands for EVERY '
+        'map of the image shape over that level alphabet (levels**pixels maps, e.g. 64 two-level maps on 2x3), a '
+        '"struct:<levels>" entry for the structured family (checkerboards, row / column stripes, diagonal, one high '
+        'and one low pixel at each position); every such map is crossed with every image of the space, so each '
+        'placement of "exceeds / does not exceed its own threshold" around each arrangement of values occurs; '
+        'a case is non-trivial when the image is not constant and the reference selects at least one '
         'peak but not every pixel.  Star finders: full product scene x finder configuration x mask, and inside it '
         'one call per (bound, reported value, exactly-at / just-beyond), per brightest=n and per xycoords list; a '
         'call is non-trivial when the unrestricted run of its configuration returns at least one row.  Every '
@@ -51,6 +61,10 @@ ASSUMPTIONS = ['numpy elementwise arithmetic/comparisons are trusted; scipy.ndim
                'the density-enhancement kernel array of DAOStarFinder/IRAFStarFinder (finder.kernel.data/.mask/.relerr) '
                'is taken from the implementation: the check is about which sources are selected, not about the kernel formula',
                'find_peaks images are at most 3x4; star-finder scenes are 21x25 with at most 3 sources (or pure noise)',
+               'find_peaks 2-D thresholds: complete over 2 levels (thorough: 3 levels) only on 2x3 images; on 3x3 images '
+               'only the structured family and the legacy 3-level cycling maps (mapP / mapN); the levels are tied to the '
+               'pixel alphabet (one level below the large values, one equal to the largest value), maps with generic real '
+               'levels or on larger images are not enumerated; a threshold map never contains NaN',
                'signed-patch mosaics: the patches are tiles of ONE image, separated by more than a kernel of zeros, and '
                'are measured by one batched xycoords call (documented: one row per supplied position, in order); a row '
                'is attributed to the tile nearest to its centroid, an unattributable row is re-run as a single-tile '
@@ -82,6 +96,62 @@ FOOT_ARR = {'box3': np.ones((3, 3), bool), 'cross': np.array(FOOT['cross'], bool
             'row13': np.ones((1, 3), bool), 'ell': np.array(FOOT['ell'], bool)}
 # threshold forms: numbers, or a 2-D map built from three levels cycling over the pixels
 THRMAP = {'mapP': (0.5, 1.0, 1.5), 'mapN': (-1.5, -1.0, -3.0)}
+# ... or an ENUMERATED 2-D map: every pixel of the map takes its own symbol of a level alphabet.  The levels are
+# chosen against the pixel alphabet so that a map pixel can be "low" (the larger image values exceed it) or "high"
+# (== the largest image value: nothing exceeds it, strict '>'), i.e. the threshold really varies at the pixel
+# scale and every configuration "p exceeds its own threshold, its brighter footprint neighbour q does not exceed
+# q's own (higher) threshold" occurs -- as does every other placement of high / low pixels around a maximum.
+#   TP2: image P=(0,1,2): 0.5 -> 1 and 2 exceed;  2.0 -> nothing exceeds (2 == threshold)
+#   TP3: image P:        -0.5 -> all exceed;      1.0 -> only 2 exceeds (1 == threshold);  2.0 -> nothing
+#   TM2: image M=(-2,-1,NaN): -3.0 -> all values exceed;  -1.0 -> nothing exceeds (-1 == threshold)
+#   TN3: image N=(-2,-1,0,1,NaN): -3.0 -> all;  -1.0 -> 0 and 1 exceed (-1 == threshold);  1.0 -> nothing
+THRLEVELS = {'TP2': (0.5, 2.0), 'TP3': (-0.5, 1.0, 2.0), 'TM2': (-3.0, -1.0), 'TN3': (-3.0, -1.0, 1.0)}
+# axis entries (strings in a space's 'thr' tuple) that expand to MANY maps:
+#   'all:<levels>'     every assignment of the level alphabet to the pixels of the map (nlev ** npix maps)
+#   'struct:<levels>'  the structured family below over (lowest level, highest level)
+#   'struct4:<levels>' its first four members (quick tier on 3x3)
+
+
+def _struct_maps(shape):
+    """Structured 0/1 (low/high) maps of the given shape, as (name, flat code); simplest first."""
+    ny, nx = shape
+    cy, cx = ny // 2, nx // 2
+    pix = [(y, x) for y in range(ny) for x in range(nx)]
+    out = [('chk0', [(y + x) % 2 for y, x in pix]),                # checkerboard, corners low
+           ('chk1', [(y + x + 1) % 2 for y, x in pix]),            # checkerboard, corners high
+           ('hi-centre', [int((y, x) == (cy, cx)) for y, x in pix]),
+           ('lo-centre', [int((y, x) != (cy, cx)) for y, x in pix]),
+           ('rows', [y % 2 for y, x in pix]), ('rows-inv', [(y + 1) % 2 for y, x in pix]),
+           ('cols', [x % 2 for y, x in pix]), ('cols-inv', [(x + 1) % 2 for y, x in pix]),
+           ('diag', [int(y == x) for y, x in pix]), ('diag-inv', [int(y != x) for y, x in pix])]
+    for (y0, x0) in pix:                                            # one high pixel / one low pixel at each position
+        if (y0, x0) != (cy, cx):
+            out.append((f'hi@{y0},{x0}', [int((y, x) == (y0, x0)) for y, x in pix]))
+            out.append((f'lo@{y0},{x0}', [int((y, x) != (y0, x0)) for y, x in pix]))
+    return out
+
+
+def _thr_axis(sp):
+    """The threshold axis of a space with the 'all:' / 'struct:' entries expanded.  An enumerated map is the
+    JSON dict {'levels': name, 'code': flat list of level indices, 'name': label}."""
+    npx = sp['shape'][0] * sp['shape'][1]
+    out = []
+    for t in sp['thr']:
+        if isinstance(t, str) and ':' in t:
+            kind, lev = t.split(':')
+            nlev = len(THRLEVELS[lev])
+            if kind == 'all':
+                for code in itertools.product(range(nlev), repeat=npx):
+                    out.append({'levels': lev, 'code': list(code), 'name': 'all'})
+            else:
+                fam = _struct_maps(sp['shape'])
+                if kind == 'struct4':
+                    fam = fam[:4]
+                for name, code in fam:
+                    out.append({'levels': lev, 'code': [c * (nlev - 1) for c in code], 'name': name})
+        else:
+            out.append(t)
+    return out
 
 
 def fp_spaces(tier):
@@ -101,6 +171,13 @@ def fp_spaces(tier):
              mask=(None,), npeaks=(None,), centroid=(False,)),
         dict(name='P23-shapes', shape=(2, 3), alpha='P', fp=('row13', 'ell'), border=(None, (0, 1)), thr=(0.5, 1.0),
              mask=(None, (0, 1)), npeaks=(None, 1), centroid=(False,)),
+        # the 2-D threshold as an enumerated axis: ALL 2-level maps x all images (2x3), structured maps x all images (3x3)
+        dict(name='P23-thrmap-all', shape=(2, 3), alpha='P', fp=('box3', 'ell'), border=(None,), thr=('all:TP2',),
+             mask=(None,), npeaks=(None,), centroid=(False,)),
+        dict(name='P33-thrmap-struct', shape=(3, 3), alpha='P', fp=('box3',), border=(None,), thr=('struct4:TP2',),
+             mask=(None,), npeaks=(None,), centroid=(False,)),
+        dict(name='M23-thrmap-all', shape=(2, 3), alpha='M', fp=('cross',), border=(None,), thr=('all:TM2',),
+             mask=(None,), npeaks=(None,), centroid=(False,)),
     ]
     if tier != 'thorough':
         return q
@@ -119,6 +196,21 @@ def fp_spaces(tier):
         dict(name='N23-full', shape=(2, 3), alpha='N', fp=('box3', 'cross', 'row13', 'ell'),
              border=(None, 0, (0, 1)), thr=(-3.0, -1.0, 'mapN'), mask=(None, (0, 1)), npeaks=(None, 1),
              centroid=(False,)),
+        # the 2-D threshold as an enumerated axis, crossed with its neighbouring axes
+        dict(name='P23-thrmap-all', shape=(2, 3), alpha='P', fp=('box3', 'cross', 'row13', 'ell'),
+             border=(None, (0, 1)), thr=('all:TP2',), mask=(None, (0, 1)), npeaks=(None,), centroid=(False,)),
+        dict(name='P23-thrmap-all3', shape=(2, 3), alpha='P', fp=('box3',), border=(None,), thr=('all:TP3',),
+             mask=(None,), npeaks=(None,), centroid=(False,)),
+        dict(name='P33-thrmap-struct', shape=(3, 3), alpha='P', fp=('box3',), border=(None,),
+             thr=('struct:TP2',), mask=(None,), npeaks=(None,), centroid=(False,)),
+        dict(name='P23-thrmap-npeaks', shape=(2, 3), alpha='P', fp=('box3',), border=(None,), thr=('all:TP2',),
+             mask=(None,), npeaks=(1, 2), centroid=(False,)),
+        dict(name='P23-thrmap-centroid', shape=(2, 3), alpha='P', fp=('box3',), border=(None,), thr=('all:TP2',),
+             mask=(None,), npeaks=(None,), centroid=(True,)),
+        dict(name='M23-thrmap-all', shape=(2, 3), alpha='M', fp=('box3', 'cross'), border=(None,),
+             thr=('all:TM2',), mask=(None, (0, 1)), npeaks=(None,), centroid=(False,)),
+        dict(name='N23-thrmap-struct', shape=(2, 3), alpha='N', fp=('box3',), border=(None,),
+             thr=('struct:TN3',), mask=(None,), npeaks=(None,), centroid=(False,)),
     ]
     return t
 
@@ -126,9 +218,9 @@ def fp_spaces(tier):
 def _space_size(sp):
     npx = sp['shape'][0] * sp['shape'][1]
     n = len(ALPHA[sp['alpha']]) ** npx
-    for ax in ('fp', 'border', 'thr', 'mask', 'npeaks', 'centroid'):
+    for ax in ('fp', 'border', 'mask', 'npeaks', 'centroid'):
         n *= len(sp[ax])
-    return n
+    return n * len(_thr_axis(sp))
 
 
 def _border_pair(b):
@@ -141,6 +233,10 @@ def _border_pair(b):
 
 def _thr_values(thr, shape):
     """-> (argument for find_peaks, flat list or scalar for the reference)"""
+    if isinstance(thr, dict):
+        lv = THRLEVELS[thr['levels']]
+        flat = [lv[c] for c in thr['code']]
+        return np.array(flat).reshape(shape), flat
     if isinstance(thr, str):
         lv = THRMAP[thr]
         ny, nx = shape
@@ -182,6 +278,10 @@ def _diff_site(kind, pix, vals, shape, nbrs, thrflat, border, maskflat, fpname):
     if kind == 'missing' and all(vals[p] < 0 and touches_edge(p) for p in ps):
         return 'missing:negative-maximum-next-to-image-edge'
     scalar = not isinstance(thrflat, list)
+    if kind == 'extra' and not scalar and all(
+            any(vals[q] > vals[p] and not vals[q] > thrflat[q] for q in nbrs[p]) for p in ps):
+        # only a 2-D threshold can do this: a brighter neighbour that is above MY threshold is above a scalar one
+        return 'extra:brighter-neighbour-not-above-its-own-threshold'
     if any(vals[p] == (thrflat if scalar else thrflat[p]) for p in ps):
         return f'{kind}:value==threshold'
     if maskflat is not None and any(maskflat[p] for p in ps):
@@ -350,7 +450,7 @@ def run_fp_unit(acc, unit, tier):
     mods = _fp_mods()
     npx = sp['shape'][0] * sp['shape'][1]
     nsym = len(ALPHA[sp['alpha']])
-    configs = list(itertools.product(sp['fp'], sp['border'], sp['thr'], sp['mask'], sp['npeaks'], sp['centroid']))
+    configs = list(itertools.product(sp['fp'], sp['border'], _thr_axis(sp), sp['mask'], sp['npeaks'], sp['centroid']))
     for i, code in enumerate(itertools.product(range(nsym), repeat=npx)):
         if i % unit['nshards'] != unit['shard']:
             continue
@@ -1432,10 +1532,18 @@ def replay(case, seed):
 
 def describe(tier, seed):
     sps = []
+    struct_used = {}
     for sp in fp_spaces(tier):
         d = {k: (list(v) if isinstance(v, tuple) else v) for k, v in sp.items()}
         d['symbols'] = ['nan' if s != s else s for s in ALPHA[sp['alpha']]]
         d['cases'] = _space_size(sp)
+        axis = _thr_axis(sp)
+        d['thresholds_after_expansion'] = len(axis)
+        names = [t['name'] for t in axis if isinstance(t, dict) and t['name'] != 'all']
+        if names:
+            d['structured_maps'] = names
+            struct_used['x'.join(str(n) for n in sp['shape'])] = {
+                name: code for name, code in _struct_maps(sp['shape']) if name in names}
         sps.append(d)
     fams = sf_families(tier)
     scenes = SCENES_THOROUGH if tier == 'thorough' else SCENES_QUICK
@@ -1480,4 +1588,10 @@ def describe(tier, seed):
     return {'alphabet': {'find_peaks_spaces': sps,
                          'footprints': {k: (v if isinstance(v, (str, type(None))) else v) for k, v in FOOT.items()},
                          'threshold_maps': {k: list(v) for k, v in THRMAP.items()},
+                         'threshold_map_levels': {k: list(v) for k, v in THRLEVELS.items()},
+                         'threshold_map_axis': {
+                             'all:<levels>': 'every assignment of the levels to the pixels of a map of the image shape',
+                             'struct:<levels>': 'structured family over (lowest, highest) level, 0 = low / 1 = high, '
+                                                'flat C order; struct4 = its first four members',
+                             'structured_maps_0low_1high': struct_used},
                          'star_finders': star}}
